@@ -53,6 +53,22 @@ pub fn c03(out: &mut dyn Write, tier: &str, rng: &mut Rng, st: &mut Stats) {
         for s in [0usize, 3] { let r = denv.var(s); writeln!(out, "C03|var|{}|{}|", s, show(&r)).unwrap(); }
         for v in [false, true] { let r = denv.mk_const(v); writeln!(out, "C03|const|{}|{}|", v as u8, show(&r)).unwrap(); }
     }
+    // deep functions (60 to 130 variables, small diagrams): the connectives on pairs of them, and the negation
+    {
+        let denv: BDDEnv<usize> = BDDEnv::new();
+        let fs = deep_functions(tier, rng);
+        let pairs = if tier == "thorough" { 300 } else { 24 };
+        for i in 0..pairs {
+            let a = Rc::clone(&fs[(i * 7) % fs.len()]);
+            let b = Rc::clone(&fs[(i * 11 + 3) % fs.len()]);
+            let op = BIN_OPS[i % BIN_OPS.len()];
+            let r = bin(&denv, op, Rc::clone(&a), Rc::clone(&b));
+            writeln!(out, "C03|bin|{}|{}|{}|{}|{};{}", op, show(&a), show(&b), show(&r), show(&a), show(&b)).unwrap();
+            let r = denv.not(Rc::clone(&a));
+            writeln!(out, "C03|not|{}|{}|{}", show(&a), show(&r), show(&a)).unwrap();
+            st.hit("op.deep");
+        }
+    }
     let env: BDDEnv<usize> = BDDEnv::new();
     let embs = embeddings();
     let exhaustive = tier == "thorough";
@@ -547,6 +563,28 @@ pub fn c02(out: &mut dyn Write, tier: &str, rng: &mut Rng, st: &mut Stats) {
         st.hit("route.big");
     }
     st.add("steps", le.steps.get());
+    // deep functions (60 to 130 variables): every operation returns the model's diagram, ordered and reduced, and two
+    // routes to one function meet in one diagram
+    {
+        let fs = deep_functions(tier, rng);
+        let pairs = if thorough { 200 } else { 18 };
+        for i in 0..pairs {
+            let a = Rc::clone(&fs[(i * 5) % fs.len()]);
+            let b = Rc::clone(&fs[(i * 13 + 1) % fs.len()]);
+            let ab = le.and(&a, &b);
+            let ba = le.and(&b, &a);
+            emit_canon(&le, "deep.and-commutes", &ab, &ba);
+            let dm = { let na = le.not(&a); let nb = le.not(&b); let o = le.or(&na, &nb); le.not(&o) };
+            emit_canon(&le, "deep.de-morgan", &ab, &dm);
+            let x = le.xor(&a, &b);
+            let x2 = { let na = le.not(&a); let l = le.and(&na, &b); let nb = le.not(&b); let r = le.and(&a, &nb); le.or(&l, &r) };
+            emit_canon(&le, "deep.xor-unfolded", &x, &x2);
+            let e = le.exists(&[64, 1], &ab);
+            let e2 = { let e1 = le.exists(&[1], &ab); le.exists(&[64], &e1) };
+            emit_canon(&le, "deep.exists-split", &e, &e2);
+            st.hit("route.deep");
+        }
+    }
 }
 
 pub fn c04(out: &mut dyn Write, tier: &str, rng: &mut Rng, st: &mut Stats) {
@@ -591,6 +629,17 @@ pub fn c04(out: &mut dyn Write, tier: &str, rng: &mut Rng, st: &mut Stats) {
                 writeln!(out, "C04|{}|{}|{}|{}", q, show_nats(&vs), show(&f), show(&r)).unwrap();
                 st.hit("q.collision");
             }
+        }
+    }
+    // deep functions: lists that reach across the 64th and the 128th variable
+    for (i, f) in deep_functions(tier, rng).into_iter().enumerate() {
+        if !thorough && i >= 24 { break; }
+        let lists: [Vec<usize>; 6] = [vec![0], vec![63], vec![64, 1], vec![65, 66, 2], vec![0, 64, 128], vec![(i * 5) % 130, (i * 5 + 64) % 130]];
+        let vs = lists[i % 6].clone();
+        for q in ["exists", "all"] {
+            let r = if q == "exists" { env.exists(vs.clone(), Rc::clone(&f)) } else { env.all(vs.clone(), Rc::clone(&f)) };
+            writeln!(out, "C04|{}|{}|{}|{}", q, show_nats(&vs), show(&f), show(&r)).unwrap();
+            st.hit("q.deep");
         }
     }
     // exists_impl directly, and larger functions
